@@ -184,6 +184,9 @@ func (e *lcEnv) guarded(step int, what string, fn func()) (ok bool, p any) {
 	ret, p := hx.Within(8*time.Second, fn)
 	if !ret {
 		e.viol("blocked:"+what, "step %d: %s did not return within 8 s", step, what)
+		if what == "Destroy" {
+			atomic.StoreInt32(&hx.StopEarly, 1) // Destroy holds the library's lock for good: every later history would block too
+		}
 		return false, nil
 	}
 	return true, p
@@ -802,7 +805,12 @@ func runHistory(r *hx.Result, rng *rand.Rand, console *sys.Console, tmp string, 
 	e.desc = func() any {
 		return map[string]any{"history": h.H, "async": async, "level": lcRange(e.theta, e.upper)}
 	}
-	log.Destroy()
+	if ok, _ := hx.Within(8*time.Second, func() { log.Destroy() }); !ok {
+		// an earlier Destroy never returned: the process-wide state is wedged, nothing further can be concluded
+		e.viol("blocked:Destroy", "the Destroy that separates two histories did not return within 8 s")
+		atomic.StoreInt32(&hx.StopEarly, 1)
+		return
+	}
 	log.VerifReset()
 	sys.ResetAppenders()
 	e.installHooks(nil)
